@@ -466,6 +466,20 @@ def check_train(case):
             if not _close(lhs, rhs, 1e-9):
                 out.append(("stochastic:reparam-identity", "h(s,theta) P_init(s) = %r but h(s) P_theta(s) = %r for s=%r" % (_f(lhs), _f(rhs), s.tolist())))
                 break
+        # history: samples added in several steps are one fixed set, reused (not regenerated) by evaluate and grad
+        if N >= 2:
+            vg3 = tparam.VGBS(S["A"], case["n_mean"], S["emb"], False, samples=data[:1])
+            vg3.add_A_init_samples(data[1:])
+            gen_calls = []
+            vg3.generate_samples = lambda A_, n_, **kw: (gen_calls.append(n_), np.zeros((n_, n), dtype=int))[1]
+            got = np.asarray(vg3.get_A_init_samples(N))
+            got1 = np.asarray(vg3.get_A_init_samples(1))
+            if gen_calls or got.shape != data.shape or not np.array_equal(got, data) or not np.array_equal(got1, data[:1]):
+                out.append(("vgbs:sample-store", "samples stored in two steps (1 + %d rows) are not returned as one fixed set by get_A_init_samples (new samples generated: %r)" % (N - 1, gen_calls)))
+            else:
+                st3 = tcost.Stochastic(h, vg3)
+                if not (_close(st3.grad(theta, N), g, 1e-12) and _close(st3.evaluate(theta, N), st.evaluate(theta, N), 1e-12)):
+                    out.append(("vgbs:sample-store", "cost/gradient differ between samples pre-loaded at once and added in two steps"))
         if not _close(st.evaluate(theta, N), np.mean([st.h_reparametrized(s, theta) for s in data]), 1e-12):
             out.append(("stochastic:evaluate-mean", "Stochastic.evaluate is not the mean of h_reparametrized over the stored samples"))
     return out
